@@ -14,7 +14,8 @@ def main():
                 "(Expected) and of the as-implemented node-graph + selector model (ImplFire) on the complete world (one element "
                 "per truth vector of the branch conditions); each program is built with real nested with-blocks and evaluated in "
                 "two domain orders, and once written in two steps (the branches in a first `with query:` block, the base conclusion in a second one); per element the set of inferred conclusion types is compared. Non-trivial = a program with at "
-                "least two branches; distinct by (program, domain order).")
+                "least two branches; distinct by (program, domain order). The coverage index of the selectors (SeenSet.tla: add / check / "
+                "clear over partial assignments, with and without configured keys) is model-checked and all 3-operation behaviours replayed.")
     ctx.run_tlc("RuleTree", "RuleTree_mc_plain.cfg", expect="ok")          # on the unaffected shapes the implementation model meets the reference
     ctx.run_tlc("RuleTree", "RuleTree_sw_all.cfg", expect="violation")     # ... and not on all shapes (witnesses of the findings)
     progs = [j for j in ctx.run_tlc("RuleTree", "RuleTree_gen4.cfg" if thorough else "RuleTree_gen3.cfg", expect="ok").json_lines()
@@ -70,6 +71,30 @@ def main():
         else:
             info["differs_from_as_implemented_model"] = diff_impl[:6]
             ctx.violation(info, note="conclusions differ from the rule-tree semantics and from the recorded as-implemented behaviour")
+    # the coverage index the selectors use for "already concluded for this binding" (SeenSet.tla)
+    ctx.run_tlc("SeenSet", "SeenSet_mc.cfg", expect="ok")
+    ctx.run_tlc("SeenSet", "SeenSet_mc_nokeys.cfg", expect="ok")
+    for sw in ("ExactOnly", "ClearKeepsAll"):
+        ctx.run_tlc("SeenSet", f"SeenSet_sw_{sw}.cfg", expect="violation")
+    ss_cases = []
+    for cfg in ("SeenSet_gen.cfg", "SeenSet_gen_nokeys.cfg"):
+        ss_cases += [j for j in ctx.run_tlc("SeenSet", cfg, expect="ok").json_lines() if isinstance(j, dict) and "h" in j]
+    if len(ss_cases) != 2 * 6859:
+        raise MachineryError(f"SeenSet_gen: expected 13718 behaviours, got {len(ss_cases)}")
+    ss_results = replay("seenset", ss_cases)
+    ctx.replayed += len(ss_cases)
+    for c, r in zip(ss_cases, ss_results):
+        key = ["seenset", c["with_keys"], [(s["op"], sorted((k, s["a"][k]) for k in s["keys"])) for s in c["h"]]]
+        ctx.case(key, any(s["op"] == "check" for s in c["h"][1:]))
+        for k, (s, o) in enumerate(zip(c["h"], r["obs"])):
+            if s["op"] == "check" and o != s["r"]:
+                ctx.violation({"seenset": key, "step": k, "expected_covered": s["r"], "observed": o},
+                              note="SeenSet.check disagrees with 'some stored constraint is a sub-assignment'")
+                break
+            if s["op"] != "check" and o is not None:
+                ctx.violation({"seenset": key, "step": k, "observed": o}, note="SeenSet operation raised")
+                break
+    ctx.cov["seenset_behaviours"] = len(ss_cases)
     ctx.cov["programs"] = len(progs)
     ctx.cov["replays_meeting_reference"] = meets
     ctx.exhaustive = True
